@@ -186,6 +186,30 @@ def run(ctx):
                     else:
                         break
                 return e_.get('k') == 'mcall' and e_['m'] == 'text' and sx.is_path(e_['recv'], rv)
+            # ... and the table handed back is the one the nested run returned, on every path: the expansion may define / undefine through a
+            # nested usage or an `include, which the text of the body does not show
+            rv2 = None
+            if host and host[0]['pat'].get('k') == 'tuple' and len(host[0]['pat']['e']) == 2 and host[0]['pat']['e'][1].get('k') == 'ident':
+                rv2 = host[0]['pat']['e'][1]['n']
+            for ex_ in exits_:
+                tup_ = ex_['args'][0]['args'][0]['e']
+                if rv2 is None or len(tup_) != 3:
+                    continue
+                d_ = tup_[2]
+                r.inst('expansion-table-source', {'returned_table': sq(d_)[:40]})
+                rebinds_ = [n for n in sx.walk(body) if n.get('k') == 'let' and 'init' in n and rv2 in [x for x in sx.pat_idents(n['pat']) if x] and n is not host[0]
+                            and (host[0].get('l') or 0) < (n.get('l') or 0) <= (ex_.get('l') or 0)]
+                if sx.is_path(d_, rv2) and not rebinds_:
+                    continue
+                if sx.is_path(d_, rv2) and rebinds_:
+                    r.fail('%s:%s:expansion-table-replaced' % (CRATE, name), pp.where(rebinds_[0].get('l') or f['l']),
+                           '%s re-binds the table returned by the nested run before handing it back (`%s`): on some path the caller gets another table than the one the expansion '
+                           'produced, so a `define / `undef reached through a nested usage or an `include in the macro body is lost' % (name, sq(rebinds_[0])[:70]))
+                elif sx.is_path(d_) or (d_.get('k') == 'mcall' and d_['m'] == 'clone'):
+                    r.fail('%s:%s:expansion-table-replaced' % (CRATE, name), pp.where(d_.get('l') or ex_.get('l') or f['l']),
+                           '%s hands back `%s` as the define table, not the table returned by the nested run (`%s`): what the expansion defined or undefined is lost' % (name, sq(d_)[:40], rv2))
+                else:
+                    r.undecided('%s:%s:expansion-table-source' % (CRATE, name), pp.where(ex_.get('l') or f['l']), 'returned table `%s` not recognised' % sq(d_)[:40])
             for ex_ in exits_:
                 t_ = ex_['args'][0]['args'][0]['e'][0] if ex_['args'][0]['args'][0]['e'] else None
                 if t_ is None or rv is None:
